@@ -57,11 +57,11 @@ def gen_cases(ctx, dts):
                         out.append(("small-grid", "%d %d %d %d %d %d %d" % (dt, a, b, c, e, ts[k % 4], ts[(k // 4) % 4])))
                         k += 1
     # 2. the boundary grid: complete over pairs of "large" coordinates, sampled over the rest
-    grid = BOUNDARY + (TOP_QUICK if quick else TOP_ALL)
-    n_grid = 22000 if quick else 1500000
+    top = TOP_QUICK if quick else TOP_ALL
+    n_grid = 22000 if quick else 600000
     for _ in range(n_grid):
         dt = rng.choice(dtv)
-        a, b, c, e = (rng.choice(grid) for _ in range(4))
+        a, b, c, e = (rng.choice(BOUNDARY) if rng.random() < 0.6 else rng.choice(top) for _ in range(4))
         out.append(("boundary-grid", "%d %d %d %d %d %d %d" % (dt, a, b, c, e, rng.choice(ts), rng.choice(ts))))
     # one coordinate sweeps the whole boundary list, the others at zero (defaults) / small: complete
     for dt in dtv:
@@ -71,7 +71,7 @@ def gen_cases(ctx, dts):
                 f[pos] = v
                 out.append(("axis-sweep", "%d %d %d %d %d 0 0" % (dt, f[0], f[1], f[2], f[3])))
     # 3. aimed at the three guard boundaries (case splits of the proofs)
-    n_aim = 250 if quick else 20000
+    n_aim = 250 if quick else 6000
     for dt in dtv:
         w = width(dt)
         m = 256 // w
@@ -95,10 +95,10 @@ def gen_cases(ctx, dts):
     # 4. random, magnitudes log-uniform
     def rv():
         return rng.randrange(1 << rng.randrange(1, 33))
-    for _ in range(6000 if quick else 400000):
+    for _ in range(6000 if quick else 150000):
         out.append(("random", "%d %d %d %d %d %d %d" % (rng.choice(dtv), rv(), rv(), rv(), rv(), rv() if rng.random() < .5 else 0, rv() if rng.random() < .5 else 0)))
     # divisibility structure: eps a multiple / near-multiple of spd/sdf, small co-prime cases (the loop)
-    for _ in range(4000 if quick else 200000):
+    for _ in range(4000 if quick else 80000):
         dt = rng.choice(dtv)
         sdf = rng.randrange(1, 600)
         epd = rng.randrange(1, 400)
@@ -137,8 +137,8 @@ def gen_cases(ctx, dts):
 def budget_split(ctx, lines, guard, scale=1.0):
     """light cases run everywhere; heavy ones (long C loop / long model divisor scan) are sampled within a budget."""
     quick = ctx.tier == "quick"
-    model_budget = scale * (6.0e6 if quick else 1.5e8)       # divisor-scan steps of the extracted model (~7 us each)
-    c_budget = scale * (1.5e10 if quick else 6.0e11)         # C loop iterations (~2 ns each), per build
+    model_budget = scale * (6.0e6 if quick else 5.0e7)       # divisor-scan steps of the extracted model (~7 us each)
+    c_budget = scale * (1.5e10 if quick else 2.0e11)         # C loop iterations (~2 ns each), per build
     light, heavy = [], []
     for l, g in zip(lines, guard):
         _, e1, e0 = g.split()
@@ -157,7 +157,9 @@ def budget_split(ctx, lines, guard, scale=1.0):
             kept.append(l); ms += mc; cs += cc
         else:
             skipped += 1
-    return [l for l, _, _ in light], kept, skipped
+    light = [l for l, _, _ in light]
+    ctx.rng.shuffle(light)        # faulting cases (one fork each) cluster in generation order: spread them over the shards
+    return light, kept, skipped
 
 
 def run_c_quiet(variant, lines, alarm_s):
@@ -211,7 +213,7 @@ def check(ctx, cases, dts, cls):
     # a faulting case costs a fork + a sanitizer report on the ASan/UBSan build: all non-faulting cases, a sample of the faulting ones
     pred_fault = [l for l in light if model[l].startswith("FAULT")]
     ctx.rng.shuffle(pred_fault)
-    n_f = 1500 if ctx.tier == "quick" else 40000
+    n_f = 1500 if ctx.tier == "quick" else 12000
     skip_asan = set(pred_fault[n_f:])
     asan_light = [l for l in light if l not in skip_asan]
     impl["asan"] = dict(zip(asan_light + heavy, run_c_quiet("asan", asan_light, 5) + run_c_quiet("asan", heavy, 120)))
